@@ -32,6 +32,10 @@ def run(rep, fb, tier):
     lints.rule_flat_length(rep, fb)
     lints.rule_dtype_case(rep, fb)
     lints.rule_fill_accumulate(rep, fb)
+    lints.rule_raw_store(rep, fb)
+    lints.rule_ptr_byteoffset(rep, fb)
+    lints.rule_contiguous_guard(rep, fb)
+    lints.rule_dtype_arm_clones(rep, fb)
     from ..rules import pyrules
     pyrules.rule_py_borrowed(rep, ["_util.py", "operations/structure.py", "operations/convert.py", "highlevel.py", "_connect/_numpy.py", "partition.py", "behaviors/string.py",
                                    "behaviors/categorical.py", "operations/reducers.py", "operations/describe.py"], floor=20)
